@@ -40,6 +40,35 @@ pub fn check_total(ctx: &Ctx, ts: u32, reference: &[f64; 2], pkt: &[u8]) -> Chec
     Ok(())
 }
 
+/// Decoding is a function of (timestamp, reference, bytes) alone: the round trip of `t` must also succeed right after
+/// a related packet was decoded on the same thread (timestamp and address differing from `t` in one bit each — a
+/// cached key or state indexed by part of them would be reused).
+pub fn check_trip_after_siblings(ctx: &Ctx, t: &Trip) -> Check {
+    for i in 0..32u32 {
+        for j in (0..=24u32).rev() {
+            let mut sib = t.clone();
+            sib.ts ^= 1 << i;
+            if j < 24 {
+                sib.fields.address ^= 1 << j;
+            }
+            let mut f = sib.fields;
+            f.lat19 = flarmenc::lat_field(sib.truth[0]);
+            f.lon20 = flarmenc::lon_field(sib.truth[1]);
+            let pkt = flarmenc::packet(&f, sib.ts, sib.trailer);
+            let _ = catch(|| Flarm::from_record(sib.ts, &sib.reference, &pkt));
+            check_trip(ctx, t).map_err(|mut e| {
+                e.signature = format!("{}:after-related-packet", e.signature);
+                e.detail = format!("after decoding the same fields with timestamp bit {i}{} flipped: {}", if j < 24 { format!(" and address bit {j}") } else { String::new() }, e.detail);
+                if let Value::Object(m) = &mut e.replay {
+                    m.insert("after_sibling".into(), json!([i, j]));
+                }
+                e
+            })?;
+        }
+    }
+    Ok(())
+}
+
 #[derive(Clone, Debug)]
 pub struct Trip {
     pub fields: Fields,
@@ -119,7 +148,34 @@ fn fields() -> impl Strategy<Value = Fields> {
         (0u32..0x100_0000, prop_oneof![Just(0x10u8), Just(0x20u8)], 0u16..1024, any::<bool>(), any::<bool>(), 0u16..4096, 0u8..16),
         (0u16..8192, 0u8..4, any::<[u8; 4]>(), any::<[u8; 4]>(), 0u8..16, 0u16..1024),
     )
+        .prop_flat_map(|base| (Just(base), prop_oneof![3 => Just(None), 1 => doubling().prop_map(Some)]))
+        .prop_map(|(((address, magic, vs, stealth, no_track, gps, actype), (alt, mult, ns, ew, spare0, spare2)), dbl)| {
+            let (ns, ew, mult) = match dbl {
+                Some((n, e)) => (n, e, mult & 1),
+                None => (ns, ew, mult),
+            };
+            ((address, magic, vs, stealth, no_track, gps, actype), (alt, mult, ns, ew, spare0, spare2))
+        })
         .prop_map(|((address, magic, vs, stealth, no_track, gps, actype), (alt, mult, ns, ew, spare0, spare2))| Fields { address, magic, vs, stealth, no_track, gps, actype, lat19: 0, alt, lon20: 0, mult, ns, ew, spare0, spare2 })
+}
+
+/// velocity derivatives whose heading at +8 s is exactly twice the heading at +4 s (the complex square of the first
+/// sample): the extrapolated track is then 0 up to rounding, i.e. the wrap-around point of [0, 360)
+fn doubling() -> impl Strategy<Value = ([u8; 4], [u8; 4])> {
+    (-11i32..=11, -11i32..=11, 1i32..=2, any::<[u8; 2]>(), any::<[u8; 2]>()).prop_map(|(a, b, k, r1, r2)| {
+        let (mut a, mut b) = (a * k, b * k);
+        let (mut c, mut d) = (a * a - b * b, 2 * a * b);
+        if c.abs() > 127 || d.abs() > 127 {
+            // keep the angle, shrink the modulus
+            a /= k;
+            b /= k;
+            c = a * a - b * b;
+            d = 2 * a * b;
+        }
+        let c = c.clamp(-127, 127);
+        let d = d.clamp(-127, 127);
+        ([a as i8 as u8, c as i8 as u8, r1[0], r1[1]], [b as i8 as u8, d as i8 as u8, r2[0], r2[1]])
+    })
 }
 
 fn trip() -> impl Strategy<Value = Trip> {
@@ -172,7 +228,7 @@ fn golden_pin(ctx: &Ctx) -> bool {
 }
 
 pub fn run(ctx: &Ctx) {
-    ctx.set_rule("(a) packets of length 0..=40 (random bytes; magic byte forced valid for 2/3; also well-formed encrypted packets with arbitrary words), any u32 timestamp, references from {finite, NaN, +-inf, +-1e300, i32 limits}: Ok or Err, never a panic, decoded latitude/longitude/speeds/track finite, track in [0,360), JSON renders. (b) field tuples (address, magic 0x10/0x20, type 0..15, flags, GPS 12 bits, altitude 0..8191 m, vertical speed, derivatives, multiplier, spare bits), timestamps on both key tables, references anywhere, truth = reference + offset anywhere in +-3.3 deg / +-6.7 deg (edges boosted) taken numerically: packed and XXTEA-encrypted by an independent implementation; decoded address, address type, aircraft type, flags, GPS, altitude equal and position within 1.28e-5 deg. Non-trivial = (a) accepted packet, (b) truth more than 0.01 deg from the reference; distinct by hash.");
+    ctx.set_rule("(a) packets of length 0..=40 (random bytes; magic byte forced valid for 2/3; also well-formed encrypted packets with arbitrary words), any u32 timestamp, references from {finite, NaN, +-inf, +-1e300, i32 limits}: Ok or Err, never a panic, decoded latitude/longitude/speeds/track finite, track in [0,360), JSON renders. (b) field tuples (address, magic 0x10/0x20, type 0..15, flags, GPS 12 bits, altitude 0..8191 m, vertical speed, derivatives, multiplier, spare bits), timestamps on both key tables, references anywhere, truth = reference + offset anywhere in +-3.3 deg / +-6.7 deg (edges boosted) taken numerically: packed and XXTEA-encrypted by an independent implementation; decoded address, address type, aircraft type, flags, GPS, altitude equal and position within 1.28e-5 deg; a quarter of the tuples carry velocity derivatives whose heading doubles between the two samples (extrapolated track at the 0/360 wrap); the round trip is also repeated right after decoding each of 800 related packets (one timestamp bit and one address bit flipped) on the same thread. Non-trivial = (a) accepted packet, (b) truth more than 0.01 deg from the reference; distinct by hash.");
     ctx.assume("independent key schedule + XXTEA encryption reproduce the repository's two captured packets byte for byte (checked at start)");
     ctx.assume("the echoed reference_lat/reference_lon inputs are not 'numbers of the record'; decoded quantities are");
     let pinned = golden_pin(ctx);
@@ -196,6 +252,10 @@ pub fn run(ctx: &Ctx) {
             f.lat19 = flarmenc::lat_field(t.truth[0]);
             f.lon20 = flarmenc::lon_field(t.truth[1]);
             check_total(ctx, t.ts, &[f64::NAN, f64::INFINITY], &flarmenc::packet(&f, t.ts, t.trailer))
+        });
+        run_prop(ctx, &format!("history-{s}"), (n / shards / 2000).max(8), trip(), |t| {
+            ctx.class("trip repeated after each of 800 related packets (one timestamp bit x one address bit flipped)");
+            check_trip_after_siblings(ctx, t)
         });
     });
     let t = Trip { fields: Fields { address: 0x38f27b, magic: 0x10, vs: 5, stealth: false, no_track: false, gps: 3926, actype: 1, lat19: 0, alt: 160, lon20: 0, mult: 0, ns: [1, 2, 3, 4], ew: [250, 251, 252, 253], spare0: 0, spare2: 0 }, ts: 1_655_274_034, reference: [43.61924, 5.11755], truth: [43.7, 5.2], trailer: [0, 0] };
@@ -250,6 +310,10 @@ pub fn replay(ctx: &Ctx, v: &Value) {
         let p2 = |x: &Value| [x[0].as_f64().unwrap_or(0.0), x[1].as_f64().unwrap_or(0.0)];
         let tr = v["trailer"].as_array().map(|a| [a[0].as_u64().unwrap_or(0) as u8, a[1].as_u64().unwrap_or(0) as u8]).unwrap_or([0, 0]);
         let t = Trip { fields: f, ts, reference: p2(&v["reference"]), truth: p2(&v["truth"]), trailer: tr };
+        if v.get("after_sibling").is_some() {
+            ctx.judge(check_trip_after_siblings(ctx, &t));
+            return;
+        }
         ctx.judge(check_trip(ctx, &t));
     } else {
         let r = refs_from(&v["ref_bits"]);
